@@ -10,7 +10,7 @@ import sys
 import textwrap
 from itertools import chain
 
-from ._utility import _mkdir_p
+from ._utility import _mkdir_p, _nested_dicts_to_dotted_keys
 
 logger = logging.getLogger(__name__)
 
@@ -56,8 +56,12 @@ def create_linked_view(project, prefix=None, job_ids=None, path=None):
     else:
         jobs = list(project.open_job(id=job_id) for job_id in job_ids)
 
-    key_list = [k for job in jobs for k in job.statepoint().keys()]
-    value_list = [v for job in jobs for v in job.statepoint().values()]
+    # Nested keys and values end up in the view paths as well.
+    flat_statepoints = [
+        item for job in jobs for item in _nested_dicts_to_dotted_keys(job.statepoint())
+    ]
+    key_list = [k for k, _ in flat_statepoints]
+    value_list = [v for _, v in flat_statepoints]
     item_list = key_list + value_list
     bad_items = [item for item in item_list if isinstance(item, str) and os.sep in item]
 
